@@ -85,7 +85,9 @@ Record tokresp := {
   t_at : nat; t_at_sub : string;
   t_jwt : option string;   (* JWT access token: its client_id claim (no scope claim is written) *)
   t_rt : option nat;
-  t_sub : string; t_aud : list string; t_azp : string; t_nonce : string; t_auth : nat;  (* id_token *)
+  t_sub : string; t_aud : list string; t_azp : string; t_nonce : string; t_auth : nat;  (* id_token;
+     t_sub is observed only when scope openid was granted (the driver reports t_at_sub otherwise):
+     without openid the claim is whatever the storage's userinfo mapping leaves there *)
   t_scope : list string                    (* scope member of the response *)
 }.
 
@@ -125,15 +127,6 @@ Definition subset (a b : list string) : bool := forallb (fun x => string_in x b)
 Definition is_nil {A} (l : list A) : bool := match l with [] => true | _ => false end.
 Definition aud_with (id : string) (aud : list string) : list string :=
   if string_in id aud then aud else aud ++ [id].
-
-(* subject claim of the id_token: CreateIDToken lets the storage's userinfo overwrite it
-   (IDTokenClaims.SetUserInfo) whenever a scope other than profile/email/phone/address
-   was granted; the reference storage, like example/server/storage, sets the userinfo
-   subject only for scope openid *)
-Definition userinfo_scope (x : string) : bool :=
-  String.eqb x "profile" || String.eqb x "email" || String.eqb x "address" || String.eqb x "phone".
-Definition id_sub (scopes : list string) (sub : string) : string :=
-  if is_nil (filter (fun x => negb (userinfo_scope x)) scopes) || string_in "openid" scopes then sub else "".
 
 Definition E_request := "invalid_request".
 Definition E_grant := "invalid_grant".
@@ -241,7 +234,7 @@ Definition issue_code (s : st) (q : areq) (c : client) : st * out :=
    OTokens {| t_at := aid; t_at_sub := q_sub q;
               t_jwt := if c_jwt c then Some (c_id c) else None;
               t_rt := if want_rt then Some rid else None;
-              t_sub := id_sub (q_scopes q) (q_sub q); t_aud := aud_with (q_client q) aud; t_azp := q_client q;
+              t_sub := q_sub q; t_aud := aud_with (q_client q) aud; t_azp := q_client q;
               t_nonce := q_nonce q; t_auth := q_auth q; t_scope := q_scopes q |}).
 
 (* ValidateRefreshTokenScopes: None = invalid_scope *)
@@ -260,7 +253,7 @@ Definition issue_refresh (s : st) (t : rtok) (c : client) (scopes : list string)
    OTokens {| t_at := aid; t_at_sub := r_sub t;
               t_jwt := if c_jwt c then Some (c_id c) else None;
               t_rt := Some rid;
-              t_sub := id_sub scopes (r_sub t); t_aud := aud_with (r_client t) (r_aud t); t_azp := r_client t;
+              t_sub := r_sub t; t_aud := aud_with (r_client t) (r_aud t); t_azp := r_client t;
               t_nonce := ""; t_auth := r_auth t; t_scope := scopes |}).
 
 (* ---------- Provider router: code ---------- *)
